@@ -308,10 +308,65 @@ def run_vector(i, v):
     return run_session_msg_vector(i, v)
 
 
+def _same(a, b):
+    for key in a:
+        if key not in ('id',) and a[key] != b.get(key):
+            return '%s: %r then %r' % (key, str(a[key])[:60], str(b.get(key))[:60])
+    return ''
+
+
 def work(args):
+    """Every vector is evaluated three times: twice in a row, and once more after all the others in reverse order.
+    The codec is a function of its input: all three evaluations must give the same result (clause <prop>.pure) -
+    a result that depends on what was encoded or decoded before (a stale cache, a shared buffer, a class attribute
+    left behind) shows up here."""
     k, vecs, outdir = args
     path = os.path.join(outdir, 'codec_%04d.ndjson' % k)
+    lines = []
+    for i, v in vecs:
+        a = run_vector(i, v)
+        b = run_vector(i, v)
+        a['pure'], a['impure'] = True, ''
+        d = _same({x: a[x] for x in a if x not in ('pure', 'impure')}, b)
+        if d:
+            a['pure'], a['impure'] = False, 'immediate repeat differs: ' + d
+        lines.append(a)
+    for (i, v), a in zip(reversed(vecs), reversed(lines)):
+        if a['pure']:
+            d = _same({x: a[x] for x in a if x not in ('pure', 'impure')}, run_vector(i, v))
+            if d:
+                a['pure'], a['impure'] = False, 'later repeat (after the other vectors, reverse order) differs: ' + d
     with open(path, 'w') as fh:
-        for i, v in vecs:
-            fh.write(json.dumps(run_vector(i, v), separators=(',', ':')) + '\n')
+        for a in lines:
+            fh.write(json.dumps(a, separators=(',', ':')) + '\n')
     return path, len(vecs)
+
+
+def repass(args):
+    """One process evaluates every vector once more, in reverse order of the whole set, and compares with what the
+    parallel workers recorded: state shared between calls (class attributes, module tables) that lets one input
+    influence the result of another one is seen here even when the two inputs went to different workers."""
+    vecs, nd = args
+    byid = {}
+    order = []
+    with open(nd) as fh:
+        for line in fh:
+            d = json.loads(line)
+            byid[d['id']] = d
+            order.append(d['id'])
+    # first warm the process with a forward pass (fills whatever caches there may be), then judge a reverse pass
+    for i, v in vecs:
+        run_vector(i, v)
+    n = 0
+    for i, v in reversed(vecs):
+        a = byid.get(i)
+        if a is None or not a.get('pure', True):
+            continue
+        d = _same({x: a[x] for x in a if x not in ('pure', 'impure')}, run_vector(i, v))
+        if d:
+            a['pure'], a['impure'] = False, 'evaluation in one process after all other vectors differs: ' + d
+            n += 1
+    with open(nd, 'w') as fh:
+        for i in order:
+            fh.write(json.dumps(byid[i], separators=(',', ':')) + '\n')
+    return n
